@@ -55,3 +55,11 @@ pub fn interp(data: &[u8]) {
         report::<c14::C14>(&case, c14::C14::check(&case));
     }
 }
+
+/// interpreter built from a transaction input: byte 0 is the length of the unlocking script, the rest after it is the locking script
+pub fn interptx(data: &[u8]) {
+    let Some((first, rest)) = data.split_first() else { return };
+    let ul = (*first as usize).min(rest.len());
+    let case = c16::Case::RawTx { unlock: rest[..ul].to_vec(), lock: rest[ul..].to_vec() };
+    report::<c16::C16>(&case, c16::C16::check(&case));
+}
